@@ -338,6 +338,7 @@ def run(ctx):
             ctx.violation('algebra:program', msg, case=h)
     if not seen:
         raise tlc.TlcError('no program emitted')
+    check_shapes(ctx, quick)
     check_huge(ctx, quick)
 
 
@@ -409,6 +410,59 @@ def check_profiles(ctx, pairs, quick):
         if N1 > 0 and acc_defined:
             acc = teneva.accuracy(teneva.mul(As, 3.), As)
             ctx.check(abs(acc - 2.) <= 1e-7, 'algebra:accuracy-scaled', 'accuracy(3 Y, Y) = %r, exact 2 (profile %s %s)' % (acc, kind, s), case=case)
+
+
+def check_shapes(ctx, quick):
+    """Reported shape / ranks / size / effective rank on shapes and rank profiles of every kind (d = 2..7, first and last
+    mode different, non-uniform ranks, ranks above what a core carries): the effective rank is the positive root of
+    n_1 r + (n_2 + .. + n_{d-1}) r^2 + n_d r = size (d = 2: the rank itself), and every observer agrees with the dense tensor."""
+    rng = np.random.default_rng(ctx.seed + 5)
+    for t in range(300 if quick else 3000):
+        d = int(rng.integers(2, 8))
+        n = [int(x) for x in rng.integers(1, 6, size=d)]
+        if t % 3 == 0 and d >= 3 and n[0] == n[-1]:
+            n[-1] = n[0] + 1 + int(rng.integers(3))
+        r = [1] + [int(x) for x in rng.integers(1, 5, size=d - 1)] + [1]
+        Y = [rng.integers(-2, 3, size=(r[k], n[k], r[k + 1])).astype(float) for k in range(d)]
+        ctx.case(key=('shape', n, r), nontrivial=d >= 3 and n[0] != n[-1])
+        sz = sum(G.size for G in Y)
+        bad = []
+        if [int(x) for x in teneva.shape(Y)] != n:
+            bad.append('shape')
+        if [int(x) for x in teneva.ranks(Y)] != r:
+            bad.append('ranks')
+        if int(teneva.size(Y)) != sz:
+            bad.append('size')
+        er = float(teneva.erank(Y))
+        if d == 2:
+            if er != r[1]:
+                bad.append('erank(d=2)')
+        else:
+            lhs = n[0] * er + sum(n[1:d - 1]) * er * er + n[d - 1] * er
+            if not (er > 0 and abs(lhs - sz) <= 1e-9 * sz):
+                bad.append('erank')
+        if int(np.prod(n)) <= 4000:
+            Fd = F.dense(Y)
+            full = teneva.full(Y)
+            if not (np.asarray(full).shape == tuple(n) and eq(full, Fd)):
+                bad.append('full')
+            I = np.stack([rng.integers(0, k, size=9) for k in n], axis=1)
+            if not eq(teneva.get_many(Y, I), Fd[tuple(I.T)]):
+                bad.append('get_many')
+            if float(teneva.sum(Y)) != float(Fd.sum()):
+                bad.append('sum')
+            P = [rng.integers(1, 4, size=k).astype(float) for k in n]
+            W = P[0]
+            for p_ in P[1:]:
+                W = np.multiply.outer(W, p_)
+            if float(teneva.mean(Y, P)) != float((Fd * W).sum()):
+                bad.append('mean(P)')
+            ifl = teneva.interface(Y, norm=None, ltr=True)
+            ifr = teneva.interface(Y, norm=None, ltr=False)
+            if len(ifl) != d + 1 or len(ifr) != d + 1 or float(np.ravel(ifl[-1])[0]) != float(Fd.sum()) or float(np.ravel(ifr[0])[0]) != float(Fd.sum()):
+                bad.append('interface')
+        for b_ in bad:
+            ctx.violation('algebra:' + b_.split('(')[0], 'shape %s ranks %s: %s differs from the definition / the dense reference' % (n, r, b_), case={'n': n, 'r': r})
 
 
 def check_huge(ctx, quick):
